@@ -22,6 +22,16 @@ Theorem C13_transfer : forall net cm p lb pm k x,
 Proof. exact accepts_transfer. Qed.
 Print Assumptions C13_transfer.
 
+(* ... and conversely: every message that one-shot validation accepts passes the two-stage path when presented in its
+   honest wire form (stripped by ToPartialGMessage, announced key = key of its chain, completed with its own chain) *)
+Theorem C13_two_stage_complete : forall net cmts cm c p lb m,
+  CacheOK net cmts c -> cmts (v_inst (g_vote m)) = Some cm ->
+  accepts net cm None m = true -> by_progress p lb m = None ->
+  wf_chain (v_value (g_vote m)) -> (forall j, g_just m = Some j -> wf_chain (v_value (j_vote j))) ->
+  fst (two_stage net (Some cm) c p lb (fst (strip m)) (snd (strip m)) (v_value (g_vote m))) = VOk.
+Proof. exact two_stage_complete. Qed.
+Print Assumptions C13_two_stage_complete.
+
 (* stripping an accepted message and completing it with its own chain reproduces it *)
 Theorem C13_strip_complete : forall net cm m,
   accepts net cm None m = true ->
